@@ -34,6 +34,17 @@ CHECKS = {
     {"pkg": "./queue", "test": "TestC12", "shards": {"quick": 12, "thorough": 16}},
   ],
  },
+ "C18": {
+  "engine": "E-HIST",
+  "rule": "breadth-first search over histories of log writes and clock movements on the real log.FileIO in virtual time; in every distinct state (digest of the log directory + clock) every query of the query alphabet and a full Parse are compared with the list of records written; non-trivial = at least two different names logged",
+  "level": "Every history within the bounds is executed on the real logger and every look-up of the query alphabet is compared with a reference list of records; exhaustive within bounds.",
+  "note": "Bounds: <=3 writes/<=2 clock moves (quick), <=4/<=3 (thorough); 5 names (prefix, substring, sub-directory, ':' in name), 2 hashes. 'May answer yes' is widened by one day on either side of the window (the iteration overshoots); the degenerate window with equal ends is not asserted. Concurrent writers: see the E-SCHED part.",
+  "technique": "explicit-state breadth-first search over operation histories on the implementation in virtual time, reference-model oracle",
+  "assumptions": ["TZ=UTC", "virtual clock of testing/synctest selects the day file"],
+  "parts": [
+    {"pkg": "./log", "test": "TestC18", "shards": {"quick": 14, "thorough": 16}},
+  ],
+ },
 }
 
 NOT_APPLICABLE = {}
